@@ -342,7 +342,7 @@ func checkC02(c CaseC02, x *hx.Ctx) *hx.Failure {
 var propC02 = hx.Register(hx.Prop[CaseC02]{ID: "C02", Gen: genC02, Check: checkC02})
 
 func c02Rule() {
-	hx.Rec("C02").SetRule("cases: a well-formed packet built from the reference model (AFC 1/2/3, af_len 0..183, every fitting subset of the optional AF fields with random contents and variable-field lengths biased to 0 and 'exactly fills') + a payload of 0..200 bytes (length biased to capacity-1, capacity, capacity+1, 0, 183, 184; first byte biased to AF-flag-like values) + creation-helper arguments. Oracle: reference partition arithmetic; the packet after SetPayload must equal byte-for-byte the reference encoding of (same header fields, same AF logical content, af_len'=183-stored, 0xFF stuffing, payload=data[:min(n,capacity)]). Enumerated: all (af_len 0..183, n 0..200) pairs for two AF contents each. Non-trivial: SetPayload on a packet with >=1 optional AF field and n != old payload length, or af_len 0, or n > capacity.",
+	hx.Rec("C02").SetRule("cases: a well-formed packet built from the reference model (AFC 1/2/3, af_len 0..183, every fitting subset of the optional AF fields with random contents and variable-field lengths biased to 0 and 'exactly fills') + a payload of 0..200 bytes (length biased to capacity-1, capacity, capacity+1, 0, 183, 184; first byte biased to AF-flag-like values; payloads and data start one time in three like a PES packet with PTS/DTS, a PSI section or a transport packet) + creation-helper arguments (Create is also called with a window of a caller-owned option slice and then with all of it). Oracle: reference partition arithmetic; the packet after SetPayload must equal byte-for-byte the reference encoding of (same header fields, same AF logical content, af_len'=183-stored, 0xFF stuffing, payload=data[:min(n,capacity)]). Enumerated: all (af_len 0..183, n 0..200) pairs for two AF contents each. Non-trivial: SetPayload on a packet with >=1 optional AF field and n != old payload length, or af_len 0, or n > capacity.",
 		"PUSI of CreateTestPacket is asserted only when a payload was requested",
 		"CreatePacketWithPayload: only the leading len(pay) payload bytes are asserted",
 		"n=0 yields AFC=3 with af_len 183 and a zero-length payload (the library's partition invariant, not ISO's af_len<=182 rule)")
